@@ -65,6 +65,12 @@ CHECKS = {
         text="Bounded model checking against an arbitrary environment: for every parser behaviour (success, ParseError, recoverable errors, 11 exception classes) x to_stan behaviour (11 exception classes x failing always / first call / second call / summary first) x to_node (ok / NotImplementedError) x docformat x process-types x docstring (x object kind, thorough): format_docstring/format_summary/format_toc return, the complete original text is shown after a fatal failure, the failure is reported against the object, parse_errors records it, no message is repeated, and a second object is unaffected. The behaviour of the real parsers on arbitrary text (the 'for all strings' half of the statement) is NOT decided.",
         note="Trusted: CrossHair exhaustion verdict; the fault model is the documented contract of parser functions / ParsedDocstring (to_node raises NotImplementedError only). Stub installed by replacing epydoc2stan.get_parser_by_name.",
     ),
+    "C18": dict(
+        level="model_checking", design="DESIGN.md §3 C18 (narrow)",
+        technique="CrossHair (z3) exhaustion of iteration-order nondeterminism: stubs iterate System.root_names and Path.iterdir() in a solver-chosen permutation; the real consumers must give permutation-independent results",
+        text="Narrow claim. Bounded model checking against an arbitrary environment order: for 1..3 roots and every iteration order of the root-name collection, driver.get_system's project name, every object's url (index.html rule), the summary page list and the single-root rule are the same; for every listing order (120) of a package directory, System.addPackage discovers modules in the same order. Byte-identical output trees across hash seeds / reused output directories are NOT decided (not expressible to a solver).",
+        note="Trusted: CrossHair exhaustion verdict; the permutation stubs as the model of set / directory-listing order. File-system side effects are unblocked for the directory harness (mkdtemp only).",
+    ),
 }
 
 NOT_APPLICABLE = {
